@@ -400,7 +400,10 @@ ColumnSteps(cols) ==
              \cup {<<"unpivot", <<p[1], p[2]>>>> : p \in Samp(1, Pairs(KindCols(cols, "n")))}
              \cup {<<"map_columns", <<<<q[2], q[1]>>>>, d>> :
                       q \in Samp(2, {r \in {"x2", "h2"} \X SetOf(cols) : Kind[r[1]] = Kind[r[2]]}),
-                      d \in Samp(2, {<<>>} \cup {<<c>> : c \in SetOf(cols)})})
+                      d \in Samp(2, {<<>>} \cup {<<c>> : c \in SetOf(cols)})}
+             \* a column renamed onto the name of a column the same call deletes: {'x': 'y', 'y': None}
+             \cup {<<"map_columns", <<<<p[1], p[2]>>>>, <<p[2]>>>> :
+                      p \in Samp(2, {q \in Pairs(SetOf(cols)) : Kind[q[1]] = Kind[q[2]]})})
 OrderSteps(cols) ==
   LET KC == KeyCols(cols) IN
   {<<"order_rows", k, r, lim>> : k \in Bias(2, KeyLists(KC, Level) \ {<<>>}, HasT),
@@ -416,7 +419,10 @@ BinarySteps(lcols, rcols) ==
      \cup (IF Level = 1 THEN {}
            ELSE {<<"join", jt, <<<<p[1], p[2]>>>>>> : jt \in {"INNER", "LEFT", "RIGHT", "FULL"}, p \in Samp(2, diffp)}
                 \cup {<<"join", jt, <<<<p[1], p[1]>>, <<p[2], p[2]>>>>>> :
-                         jt \in {"INNER", "LEFT", "FULL"}, p \in Samp(1, Pairs(same))})
+                         jt \in {"INNER", "LEFT", "FULL"}, p \in Samp(1, Pairs(same))}
+                \* crossed keys: a name occurs on both sides, but never in one pair (left.a = right.b and left.b = right.a)
+                \cup {<<"join", jt, <<<<p[1], p[2]>>, <<p[2], p[1]>>>>>> :
+                         jt \in {"INNER", "LEFT", "RIGHT", "FULL"}, p \in Samp(1, {q \in Pairs(same) : Kind[q[1]] = Kind[q[2]]})})
      \cup {<<"concat", id>> : id \in {"", "src"}}
      \cup {<<"joinc", jt, <<<<c, c>>>>>> : jt \in {"INNER", "LEFT"}, c \in same}
 
@@ -449,6 +455,8 @@ MicroSteps(f, stk) ==
     [] f = "co"      -> {<<"drop_columns", <<k>>>> : k \in {"o", "x", "y", "z"} \cap SetOf(cols)}
                         \cup {<<"select_columns", <<k>>>> : k \in {"w", "z"} \cap SetOf(cols)}
     [] f = "oo"      -> {<<"order_rows", <<k>>, r, lim>> : k \in {"o", "z", "w"} \cap SetOf(cols), r \in {<<>>}, lim \in {0, 1}}
+    \* an ordering with a limit in either direction, right before a window ordered by the same column in either direction
+    [] f = "oor"     -> UNION {{<<"order_rows", <<k>>, r, lim>> : r \in {<<>>, <<k>>}, lim \in {0, 2}} : k \in {"o"} \cap SetOf(cols)}
     [] OTHER -> {}
 FocusAll == {"extend", "wextend", "project", "select_rows", "cols", "order", "stack", "binary"}
 FamSteps(f, stk) ==
